@@ -519,6 +519,12 @@ impl WriteBuffer {
     fn get_shard_id(&self, key: &[u8]) -> usize {
         self.shard_hasher.hash_one(key) as usize % self.sharded_buffers.len()
     }
+
+    /// (shard of the key, number of shards, number of workers)
+    #[cfg(feoxdb_verif)]
+    pub fn verif_shard_of(&self, key: &[u8]) -> (usize, usize, usize) {
+        (self.get_shard_id(key), self.sharded_buffers.len(), self.worker_channels.len())
+    }
 }
 
 /// Background worker for processing write buffer flushes
@@ -958,6 +964,11 @@ fn process_write_batch(
             }
             batch_writes.push((sector, Bytes::from(std::mem::take(&mut write.data))));
         }
+    }
+
+    #[cfg(feoxdb_verif)]
+    if !batch_writes.is_empty() {
+        crate::verif::sched::point("write_batch_after_allocation");
     }
 
     if !batch_writes.is_empty() {
